@@ -107,6 +107,10 @@
 //!              writing `io::Cursor::new(&mut buf)` with the buffer following the cursor, reader / writer chosen by the
 //!              callee's parameter type or by lookahead; `position()` / `set_position()`; `Option<&mut T>` parameters
 //!              (`Place::OptSome` / `OptWrap`); nested `&mut` in parameter / return types rejected
+//!   stage 9    (netcode server) `HashMap<SocketAddr, V>` = `RustSem.AMap`; `retain(|k, v| pure)`; `find` / `find_map` /
+//!              `filter_map` / `any` / `position` / `Option::map` / `enumerate` adaptors (pure or monadic closures); match
+//!              guards (desugared); `Box<[T]>`, `mem::take` of it, `into_vec` / `into_boxed_slice`; `Duration::as_secs`;
+//!              methods named like fields get a `'`; `&mut` in struct / enum fields rejected unless BORROWED_FIELDS_OK
 //!   not supported: `loop`, valued `break`, closures other than the pure `map` / `or_insert_with` ones, generics, traits, signed integers, floats,
 //!              references stored in data, `ref mut`, `&mut` parameters other than `self`, unsigned integers and the
 //!              octets / io cursors.
